@@ -2,6 +2,7 @@
 From Coq Require Import ZArith NArith List Bool Lia Arith ZifyBool ZifyN ZifyNat.
 Import ListNotations.
 Require Import SR.Base.Res SR.Gen.RecfmParams SR.Spec.Recfm SR.Model.Recfm.
+Require Export SR.Spec.RecfmWf.   (* items_of, calm: statement-level definitions (G1) *)
 Ltac Zify.zify_post_hook ::= Z.to_euclidean_division_equations.
 Open Scope nat_scope.
 
@@ -662,9 +663,6 @@ Proof. unfold VB_take. rewrite rdw_fits_is_le. apply VB_take_with_ok. Qed.
 
 (* ------------------------------------------------------------------ one pass, then any sequence of passes *)
 
-Definition items_of (o : out N (list N)) : list (list N) := fst (fst o).
-Definition calm (o : out N (list N)) : bool :=
-  match snd (fst o) with Done | More => true | _ => false end.
 
 Lemma render0 l : map (render 0) l = l.
 Proof. apply map_id. Qed.
